@@ -44,6 +44,7 @@ type cVar struct {
 	PK    string `json:"pk"`   // panic value kind
 	Fast  int    `json:"fast"` // 0 reflective where possible, 1 prefer the built-in fast paths, 2 user FastInvoker
 	Reqs  int    `json:"reqs"` // how many times the request is issued on the same instance
+	RH    bool   `json:"rh"`   // a custom ReturnHandler is mapped in the injector: it replaces the default table
 	Der   bool   `json:"der"`  // "C" installs a derived request context first and cancels that one
 }
 
@@ -353,6 +354,7 @@ func chainVarFor(c *chainCase, idx int) cVar {
 	v := cVar{Env: []string{"development", "production", "test"}[rng.Intn(3)],
 		PK: []string{"string", "error", "runtime", "struct", "abort"}[rng.Intn(5)], Fast: rng.Intn(3), Reqs: 1 + rng.Intn(2)}
 	v.Der = rng.Intn(2) == 0
+	v.RH = rng.Intn(5) == 0
 	v.Mw = rng.Intn(n + 1)
 	v.Group = rng.Intn(n - v.Mw + 1)
 	if rng.Intn(6) == 0 {
@@ -390,6 +392,12 @@ func chainReplay(raw json.RawMessage, idx int, tr *traceWriter) {
 	n := c.N
 	v := x.v
 	f := flamego.NewWithLogger(io.Discard)
+	if v.RH {
+		f.Map(flamego.ReturnHandler(func(c flamego.Context, vals []reflect.Value) {
+			c.ResponseWriter().WriteHeader(299)
+			_, _ = c.ResponseWriter().Write([]byte("RH"))
+		}))
+	}
 	hs := make([]flamego.Handler, n)
 	for i := 0; i < n; i++ {
 		hs[i] = x.handler(i)
@@ -429,7 +437,7 @@ func chainReplay(raw json.RawMessage, idx int, tr *traceWriter) {
 		x.panicLog = false
 		x.detail = false
 		x.inRec, x.inRecNext = 0, 0
-		tr.emit(map[string]interface{}{"ev": "req", "kinds": kinds, "n": n, "env": v.Env})
+		tr.emit(map[string]interface{}{"ev": "req", "kinds": kinds, "n": n, "env": v.Env, "rh": v.RH})
 		spy := &chainSpy{hdr: http.Header{}, x: x}
 		ctx, cancel := gocontext.WithCancel(gocontext.Background())
 		x.cancel = cancel
